@@ -18,12 +18,29 @@ def crash_signature(res, flavour="plain"):
     import usimlib
     what, sig, bt = res.crash
     frames = usimlib.symbolise(bt, flavour)
+    if not frames and res.stderr_tail:
+        # sanitizer report: "#3 0x... in uscxml::Foo::bar(...) /repo/src/...:123"
+        san_kind = ""
+        for line in res.stderr_tail.splitlines():
+            m = re.search(r"runtime error: (.*)$", line)
+            if m and not san_kind:
+                san_kind = "UBSan " + m.group(1)[:60]
+            m = re.search(r"ERROR: AddressSanitizer: (\S+)", line)
+            if m and not san_kind:
+                san_kind = "ASan " + m.group(1)
+            m = re.match(r"\s*#\d+ 0x[0-9a-f]+ in (.+?) (/\S+?):(\d+)", line)
+            if m:
+                frames.append("%s @ %s:%s" % (m.group(1), m.group(2), m.group(3)))
+        if san_kind:
+            what = san_kind
     top = ""
     for f in frames:
         if " @ /repo/" in f and "~ErrorEvent" not in f and "Event.h" not in f:
             top = _short_fn(f)
             break
     w = what
+    if w in ("exit", "sanitizer") and sig == 77:
+        w = "sanitizer"
     if w == "signal":
         w = {11: "SIGSEGV", 8: "SIGFPE", 6: "SIGABRT", 7: "SIGBUS", 4: "SIGILL", 14: "SIGALRM"}.get(sig, "signal%s" % sig)
     return "%s@%s" % (w, top or "?"), frames
@@ -35,14 +52,14 @@ def wait_signature(detail):
     return "+".join(ws)
 
 
-def hard_failures(res, prop, flavour="plain"):
+def hard_failures(res, prop, flavour="plain", kinds=("crash", "verdict")):
     """Kernel verdicts / crashes turned into rule ids (used by every property).
     The bracketed part is the failure class; minimisation keeps it fixed."""
     out = []
-    if res.crash is not None:
+    if res.crash is not None and "crash" in kinds:
         sigt, frames = crash_signature(res, flavour)
         out.append(("%s.crash[%s]" % (prop, sigt), "process died: %s\n%s" % (sigt, "\n".join("  " + f for f in frames[:14]))))
-    if res.verdict is not None:
+    if res.verdict is not None and "verdict" in kinds:
         rule, detail = res.verdict
         if rule in ("deadlock", "stuck", "idle-forever"):
             rule = "%s[%s]" % (rule, wait_signature(detail))
